@@ -13,7 +13,8 @@ def check(report, tier, only=None):
                        'every single-byte mutation of a certificate (needs the parsers under the solver: > 15 min / 20 GB on a concrete certificate, DESIGN 0)']
     obs = [('signature', tlsglue.ob_signature_delegation), ('client_auth', tlsglue.ob_client_auth_mandatory), ('server_cert', tlsglue.ob_server_cert_verifier),
            ('client_cert', tlsglue.ob_client_cert_verifier), ('identity_is', tlsglue.ob_peer_id_extraction), ('connection_identity', tlsglue.ob_connection_identity),
-           ('pinned', tlsglue.ob_expected_verifier), ('listener_cert_by_sni', tlsglue.ob_server_config_sni)]
+           ('pinned', tlsglue.ob_expected_verifier), ('listener_cert_by_sni', tlsglue.ob_server_config_sni),
+           ('tls_state_per_endpoint', tlsglue.ob_tls_state_per_endpoint)]
     for n, f in obs:
         if only and not any(s in n for s in only):
             continue
@@ -26,6 +27,9 @@ def check(report, tier, only=None):
         if only and not any(s in n for s in only):
             continue
         f(report, PROP)
+    if not only or any(s in 'identity_extensions' for s in only):
+        from props import extensions
+        extensions.ob_identity_extensions_not_shadowed(report, PROP)
     report.extra['mir_sha'] = mirdump.mir_sha('anemo')
 
 
